@@ -67,5 +67,74 @@ for name, (xc, yc) in EDGE_CENTRES.items():
         if abs(w.sum() - want) > 1e-11 * max(1.0, r * r):
             print('FAIL edge-cut area', name, r, w.sum(), want)
             fail += 1
+# 5. transposition: the reference computed for the transposed shape with the centre (yc, xc) is the transposed
+#    reference (the 'tall' orientation of C19 is judged against weights computed for its own shape)
+for name, (xc, yc) in list(EDGE_CENTRES.items()) + [('generic', (10.3, 11.7)), ('outside', (-1.0, 10.0))]:
+    for r in (0.7, 4.0, 5.5, 13.0, 40.0):
+        for method, sub in (('exact', 5), ('center', 5), ('subpixel', 5), ('subpixel', 2)):
+            w, amb = weights(shape, xc, yc, r, method, sub)
+            wt, ambt = weights(shape[::-1], yc, xc, r, method, sub)
+            if wt.shape != shape[::-1] or np.abs(wt.T - w).max() > 1e-13 or not np.array_equal(ambt.T, amb):
+                print('FAIL transposition', name, r, method, sub, np.abs(wt.T - w).max())
+                fail += 1
+
+# 6. raw data profile reference: data_points / match_points
+from mcphot.ref.c19_apweights import data_points, match_points  # noqa: E402
+
+rng = np.random.default_rng(5)
+for shp, (xc, yc), rmax in (((21, 23), (18.0, 10.0), 5.5), ((23, 21), (10.0, 18.0), 5.5), ((21, 23), (10.3, 11.7), 40.0),
+                            ((23, 21), (16.0, 4.0), 5.0), ((21, 23), (-1.0, 10.0), 0.4)):
+    img = rng.random(shp)
+    iy, ix, rr, cert = data_points(shp, xc, yc, rmax)
+    yy, xx = np.mgrid[0:shp[0], 0:shp[1]]
+    d = np.hypot(xx - xc, yy - yc)
+    if int((d < rmax - 1e-9).sum()) != int(cert.sum()) or int((d <= rmax + 1e-9).sum()) != rr.size:
+        print('FAIL data_points count', shp, xc, yc, rmax)
+        fail += 1
+    if rr.size and not np.allclose(rr, d[iy, ix], rtol=1e-15, atol=0):      # math.hypot vs np.hypot: <= 1 ulp
+        print('FAIL data_points radii', shp, xc, yc, rmax)
+        fail += 1
+    vals = img[iy, ix]
+    tol = 1e-12 * (1 + rmax)
+    perm = rng.permutation(rr.size)
+    # exact copy in another order: accepted; ties ((23, 21), (16, 4), 5: pixels exactly on the circle) may be dropped
+    for keep in (np.ones(rr.size, bool), cert):
+        k = keep[perm]
+        if match_points(rr[perm][k], vals[perm][k], rr, vals, cert, tol)[:2] != (0, 0):
+            print('FAIL match_points rejects a correct profile', shp, xc, yc, rmax)
+            fail += 1
+    if cert.sum() >= 3:
+        j = np.nonzero(cert)[0]
+        drop = np.ones(rr.size, bool)
+        drop[j[:2]] = False
+        if match_points(rr[drop], vals[drop], rr, vals, cert, tol)[:2] != (2, 0):
+            print('FAIL match_points: two dropped pixels not counted', shp)
+            fail += 1
+        if match_points(np.append(rr, 1.0), np.append(vals, 7.0), rr, vals, cert, tol)[:2] != (0, 1):
+            print('FAIL match_points: foreign point not counted', shp)
+            fail += 1
+        if match_points(rr, vals * 2, rr, vals, cert, tol)[0] != int(cert.sum()):
+            print('FAIL match_points: scaled values accepted', shp)
+            fail += 1
+        sw = vals.copy()
+        sw[j[0]], sw[j[-1]] = vals[j[-1]], vals[j[0]]       # values attached to the wrong radii
+        if rr[j[0]] != rr[j[-1]] and match_points(rr, sw, rr, vals, cert, tol)[:2] != (2, 2):
+            print('FAIL match_points: swapped values accepted', shp)
+            fail += 1
+    # constant image (all values equal): optional pixels may be dropped, required ones not; NaN values match NaN
+    cst = np.full(rr.size, 3.25)
+    req = cert & (np.arange(rr.size) % 3 != 0)
+    if match_points(rr[req], cst[req], rr, cst, req, tol)[:2] != (0, 0) or match_points(rr, cst, rr, cst, req, tol)[:2] != (0, 0):
+        print('FAIL match_points: optional pixels (constant image)', shp)
+        fail += 1
+    if rr.size:
+        vn = vals.copy()
+        vn[0] = np.nan
+        if match_points(rr, vn, rr, vn, cert, tol)[:2] != (0, 0):
+            print('FAIL match_points: NaN value', shp)
+            fail += 1
+if not (data_points((23, 21), 16.0, 4.0, 5.0)[3] == False).any():  # noqa: E712
+    print('FAIL design: the tie example has no pixel on the circle')
+    fail += 1
 print('c19_apweights selftest:', 'FAILED' if fail else 'ok')
 sys.exit(1 if fail else 0)
